@@ -983,9 +983,13 @@ const TAIL_LAST: &[&str] = &[
     "    li a0, 1",
     "    mv t2, t0",
     "    lw t1, 0(",
+    "tail_end:",
+    "    .word 1, 2,",
+    "    beq t0, zero,",
+    "    li t1, 3 frob",
 ];
 /// what follows the closing quote of the directive on the same line
-const TAIL_AFTER: &[&str] = &["li t3, 9", "addi t4, t4, 1", "frob", "li a7, 10", "t5, 7", ", 5", "mv t6, t3", "", "li a0, 2 li a1, 3"];
+const TAIL_AFTER: &[&str] = &["li t3, 9", "addi t4, t4, 1", "frob", "li a7, 10", "t5, 7", ", 5", "mv t6, t3", "", "li a0, 2 li a1, 3", "# said in passing", "after: li t3, 1", "3, 4", "main", ")"];
 const TAIL_BODY: &[&str] = &["    li t0, 1", "    addi t1, t0, 2", "    mv a0, t1", "    li a1, 4", "    add a2, a0, a1", "    bogus t0", "    li t2, 7", ""];
 
 fn generate_tail(r: &mut Rng, tier: Tier) -> Scenario {
@@ -1106,6 +1110,15 @@ fn check_tail(scn: &Scenario, stats: &mut Stats) -> Vec<Violation> {
         stats.inc("tail:outside-the-model");
         return out;
     };
+    // Textual inclusion is claimed between tokens, not inside one: a comment runs to the end of the
+    // line *of its own file*, so an included file that stops, without a newline, behind a `#` would
+    // under pasting swallow what follows the directive in the including file. The property speaks of
+    // cuts at line boundaries; cuts inside a line are followed here only where the token stream is
+    // the same on both sides. (Reached by the minimiser and by comment tails on a last line.)
+    if scn.world.files.iter().any(|(p, t)| *p != scn.world.base && !t.ends_with('\n') && t.rsplit('\n').next().is_some_and(|l| l.contains('#') || l.contains('"') && find_directive(l).is_none_or(|(a, b, _)| l[..a].contains('"') || l[b..].contains('"')))) {
+        stats.inc("tail:outside-the-model:file-ends-inside-a-comment-or-string");
+        return out;
+    }
     let split = lint::run(&LintSpec::new(&scn.world, e0, Api::Coded));
     stats.inc("t1_incarnations");
     stats.inc("tail:runs");
